@@ -18,6 +18,8 @@ pub struct Header {
     pub n_decisions: u64,
     pub out_len: u64,
     pub out_overflow: u64,
+    /// scheduler step counter of the run in progress (progress indicator for the watchdog)
+    pub heartbeat: u64,
     // crash record (written by the signal handler)
     pub crash_sig: u64,
     pub crash_addr: u64,
@@ -79,6 +81,7 @@ impl Shm {
         h.n_decisions = 0;
         h.out_len = 0;
         h.out_overflow = 0;
+        h.heartbeat = 0;
         h.crash_sig = 0;
         h.crash_addr = 0;
         h.crash_code = 0;
@@ -93,6 +96,7 @@ impl Shm {
         CUR.store(self.base as *mut Header, SeqCst);
         let h = self.header();
         crate::sched::set_crumb(self.crumb_ptr(), CRUMB_CAP, &mut h.n_decisions as *mut u64);
+        crate::sched::set_heartbeat(&mut h.heartbeat as *mut u64);
     }
     pub fn begin_run(&self, pos: u64) {
         let h = self.header();
